@@ -15,6 +15,10 @@ Directives
     //@   closure N                    contract of the N-th typed closure (`|..| -> T {`)
     //@   inject before|after [#K] `LINE` [:: TAG]   ghost lines next to the K-th line whose trimmed text is LINE
     //@   arm `HEADER {`                          lift the block of ONE match arm (tail position, checked) into a function; needs `signature` and `rename` (S6)
+    //@   closurefn NAME                          lift the body of the closure `let [mut] NAME = |..| -> T { .. };` into a function; its captured
+    //@                                           variables become parameters (declared with `signature`); needs `signature` and `rename` (S7)
+    //@   cutclosure NAME                         in the enclosing function: the closure definition is removed (its calls are redirected to the lifted
+    //@                                           function by declared rewrites that pass the captured variables explicitly) (S7)
     //@   inject blockend [#K] `LINE`               ghost lines before the closing brace of the block that LINE opens (e.g. end of a loop body)
     //@   rewrite COUNT `OLD` => `NEW` [:: LABEL]    declared single-line rewrite, must match COUNT times
     //@ end
@@ -65,6 +69,22 @@ def strip_attrs_and_vis(text):
     return text
 
 
+def find_closure(src_body, msk_body, name, where):
+    """locate `let [mut] NAME = |params| -> T { body };` : returns (start of `let`, open brace, close brace, end incl. `;`)"""
+    hits = list(re.finditer(r"\blet\s+(?:mut\s+)?" + re.escape(name) + r"\s*=\s*\|[^|;{}]*\|\s*->\s*[^{;]+?\s*\{", msk_body))
+    if len(hits) != 1:
+        raise LostAnchor(f"{where}: closure `{name}` (typed: `let [mut] {name} = |..| -> T {{`) found {len(hits)} times")
+    m = hits[0]
+    ob = m.end() - 1
+    cb = match_close(msk_body, ob)
+    q = cb + 1
+    while q < len(msk_body) and msk_body[q] in " \t\n":
+        q += 1
+    if q >= len(msk_body) or msk_body[q] != ";":
+        raise LostAnchor(f"{where}: closure `{name}`: definition is not a `let` statement ending in `;`")
+    return m.start(), ob, cb, q
+
+
 class Extract:
     def __init__(self, unit, file, impl, fn, uline):
         self.unit, self.file, self.impl, self.fn, self.uline = unit, file, impl, fn, uline
@@ -78,6 +98,8 @@ class Extract:
         self.rewrites = []      # dict(count, old, new, label)
         self.droparms = []      # dict(header, label): match arm / block whose body is replaced by vpanic()
         self.arm = None         # header of ONE match arm (in tail position) whose block is lifted into a function of its own (S6)
+        self.closurefn = None   # name of ONE closure whose body is lifted into a function of its own (S7)
+        self.cutclosures = []   # names of closures whose definition is removed from this function (S7)
         self.log = {}
 
     def render(self):
@@ -114,6 +136,18 @@ class Extract:
             ob, cb = aob, acb
             first_line = line_of(src, aob)
             s = aob
+        if self.closurefn:
+            # S7: the body of a closure becomes the body of a function whose extra parameters (declared with `signature`) are the variables
+            # the closure captures.  `return` and `?` inside a closure leave the closure, exactly as they leave the lifted function.
+            if not self.signature or not self.rename:
+                raise UnitError("closurefn: `signature` and `rename` are required")
+            ls0, cob, ccb, cend = find_closure(src[ob:cb + 1], msk[ob:cb + 1], self.closurefn, f"{self.file}::{self.fn}")
+            self.log["rewrites"]["S7_closure_lifted"] = dict(closure=self.closurefn, lines=[line_of(src, ob + ls0), line_of(src, ob + cend)], enclosing_fn=self.fn,
+                                                             original_header=" ".join(src[ob + ls0:ob + cob].split()))
+            self.log["lines"] = [line_of(src, ob + cob), line_of(src, ob + ccb)]
+            ob, cb = ob + cob, ob + ccb
+            first_line = line_of(src, ob)
+            s = ob
         # ----- signature (S1, S2)
         sig = src[s:ob]
         sig_nl = sig.count("\n")
@@ -154,6 +188,13 @@ class Extract:
             first = line_of(src, ob) + body.count("\n", 0, ob2)
             body = body[:ob2] + "{ vpanic() }" + "\n" * nl + body[cb2 + 1:]
             self.log["rewrites"].setdefault("dropped_arms", []).append(dict(header=da["header"], lines=[first, first + nl], label=da["label"]))
+        for cname in self.cutclosures:
+            bm = mask(body)
+            ls0, cob, ccb, cend = find_closure(body, bm, cname, f"{self.file}::{self.fn}")
+            nl = body.count("\n", ls0, cend + 1)
+            first = line_of(src, ob) + body.count("\n", 0, ls0)
+            self.log["rewrites"].setdefault("S7_closure_cut", []).append(dict(closure=cname, lines=[first, first + nl], header=" ".join(body[ls0:cob].split())))
+            body = body[:ls0] + "\n" * nl + body[cend + 1:]
         for rw in self.rewrites:
             c = body.count(rw["old"])
             if rw["count"] is not None and c != rw["count"]:
@@ -272,7 +313,7 @@ class Extract:
         if buf:
             out.append(Line(buf, "repo", self.file, cur_line, fnname))
         # impl wrapper (a lifted arm is a free function)
-        if self.impl and not self.arm:
+        if self.impl and not self.arm and not self.closurefn:
             ty = self.impl.split(" for ")[-1].strip()
             out.insert(0, Line(f"impl {ty} {{", "repo", self.file, line_of(src, loc["impl_range"][0]), fnname))
             out.append(Line("}", "repo", self.file, line_of(src, loc["impl_range"][2]), fnname))
@@ -410,6 +451,13 @@ def parse_unit(path):
                 if not m:
                     raise UnitError(f"{path}:{ln}: bad arm directive")
                 cur.arm = m.group(1)
+                continue
+            if d.startswith("closurefn "):
+                cur.closurefn = d.split()[1]
+                continue
+            if d.startswith("cutclosure "):
+                cur.cutclosures.append(d.split()[1])
+                section = None
                 continue
             if d == "end":
                 items.append(cur)
